@@ -189,5 +189,5 @@ func runC06(c *Ctx) {
 			}
 			return "ok", nil
 		}}
-	runScenarios(c, wr, rd, gd)
+	runScenarios(c, wr, rd, gd, corpusReadback(c, "corpus construction: FromUnsafeBytes(ToBytes())", "ToBytes"))
 }
